@@ -3,6 +3,7 @@ package commitgraph
 import (
 	"errors"
 	"io"
+	"math"
 
 	"github.com/emirpasic/gods/trees/binaryheap"
 
@@ -91,7 +92,10 @@ func (iter *commitNodeIteratorTopological) Next() (CommitNode, error) {
 			break
 		}
 
-		if toExplore.ID() != next.ID() && iter.exploreStack.Size() == 1 {
+		// The single-node shortcut is only sound when the explore heap
+		// is ordered by real generation numbers; commits outside the
+		// commit-graph report MaxUint64 and must be explored.
+		if toExplore.ID() != next.ID() && iter.exploreStack.Size() == 1 && toExplore.Generation() != math.MaxUint64 {
 			break
 		}
 		if generationV2 {
